@@ -38,6 +38,10 @@ TIE_HUB = TIE_HUB + [(f"TieHubE2E.{n}", "Relay.Tie.HubE2E") for n in
                      ["e2e_inv", "e2e_no_send_on_closed", "e2e_no_double_close", "e2e_closed_iff_removed", "e2e_closed_exactly_once",
                       "e2e_closed_only_registered", "e2e_filed_registered", "e2e_queue_bounded", "e2e_isolation_no_echo", "e2e_send_at_time",
                       "e2e_channel_owner_unique", "e2e_no_duplicate_delivery", "e2e_sendLog_eq_outs", "register_files"]]
+TIE_HUB = TIE_HUB + [(f"TieHubDcs.{n}", "Relay.Tie.HubDcs") for n in
+                     ["e2e_dinv", "e2e_dcs_content", "e2e_dcs_matches_filed", "e2e_filed_recorded", "e2e_dcs_model", "e2e_parentByChild_content",
+                      "e2e_parentByChild_matches", "e2e_parentByChild_none", "e2e_deny_closes_exactly_the_bookings_connections", "e2e_deny_reaches",
+                      "e2e_deny_only_live", "e2e_idle_store_empty"]]
 TIE_HUB_NOTE = ("HUB TRANSLATION: the three cases of Hub.run's select and Hub.remove (internal/crossbar) are translated to Lean on every run "
                 "(Relay/Extracted/GenCrossbar.lean) and proved, for every map iteration order and every choice of which send queues are full, to send a "
                 "message exactly once to exactly the other members filed under the sender's topic that have room, to drop exactly the ones that have not "
@@ -46,7 +50,10 @@ TIE_HUB_NOTE = ("HUB TRANSLATION: the three cases of Hub.run's select and Hub.re
                 "history in which serveWs's discipline holds (each registered client is a new object with a new send channel): the hub never sends on a channel "
                 "it has closed and never closes one twice (both would panic), a registered client is either still filed or its channel was closed exactly once, "
                 "queues never exceed their capacity, every send ever made went to a member of the sender's topic other than the sender, no message is delivered "
-                "twice by one broadcast. ")
+                "twice by one broadcast. CANCEL BOOKKEEPING (Relay/Tie/HubDcs.lean): over every such history (clients named uniquely, each with a real `denied` channel, "
+                "an unregister never concerns a look-alike of another client's name) the translated cancel-channel store inside the hub holds exactly the filed "
+                "clients that have a booking id, each with its own `denied` channel; `DeleteAndCloseParent b` — what a deny runs — closes exactly the `denied` "
+                "channels of the connections currently joined under booking b, each once; when everybody has left the store is empty again. ")
 TIE_NOTE = ("TRANSLATOR TIE: internal/deny, internal/ttlcode, internal/chanmap, the scope / required-claims decisions, the session handler and the four admin handlers of internal/access, and internal/permission are translated to Lean on every run and proved, for all states, arguments and map "
             "iteration orders, to be the store models this property's model builds on (Relay/Tie/*.lean). ")
 TIE_ASSUMPTION = "translator vocabulary (Relay/Base/GoLite.lean): int64 as unbounded Int, pointer receiver as threaded value, mutex calls are not data (lock discipline: C12)"
